@@ -93,6 +93,15 @@ int main(int argc, char ** argv)
     if ((r.position - want).norm() > 1e-9 * (1 + want.norm())) FAIL("rotation of %g rad about axis %d, pose at (1e4,-1e4,5e3): position is %.3g away from R p + T", ang, ax, (r.position - want).norm());
     if ((eulerAnglesToRotation3D(r.orientation) - A.rotation() * eulerAnglesToRotation3D(p.orientation)).norm() > 1e-9) FAIL("rotation of %g rad about axis %d: attitude is not R * R(pose) (difference %.3g)", ang, ax, (eulerAnglesToRotation3D(r.orientation) - A.rotation() * eulerAnglesToRotation3D(p.orientation)).norm());
   }
+  // attitudes at the edge of the property's domain: 1e-3 .. 5e-3 rad away from gimbal lock on either side, identity and rotations about z
+  // (which keep the pitch); near the singularity rotation3DToEulerAngles is ill-conditioned, hence the looser tolerance
+  for (double gap : {1.0e-3, 1.1e-3, 1.2e-3, 1.3e-3, 1.4e-3, 2e-3, 5e-3}) for (double sgn : {1.0, -1.0}) for (double roll : {0.0, 0.7, -2.1}) for (double zrot : {0.0, 0.4, -1.9}) {
+    Pose3D p; p.position = Eigen::Vector3d(1, 2, 3); p.orientation = Eigen::Vector3d(roll, sgn * (M_PI / 2 - gap), 0.3); p.covariance.setIdentity();
+    Eigen::Affine3d A = Eigen::Translation3d(0.5, -0.25, 0.125) * Eigen::AngleAxisd(zrot, Eigen::Vector3d::UnitZ());
+    Pose3D r = A * p;
+    double err = (eulerAnglesToRotation3D(r.orientation) - A.rotation() * eulerAnglesToRotation3D(p.orientation)).norm();
+    if (err > 1e-6) FAIL("attitude (%g, %s(pi/2 - %g), 0.3), %g rad from gimbal lock, rotation of %g rad about z: attitude of the result differs from R * R(pose) by %.3g", roll, sgn > 0 ? "+" : "-", gap, gap, zrot, err);
+  }
   {
     Eigen::Affine3d step = Eigen::Translation3d(1e-3, 0, 0) * Eigen::AngleAxisd(1e-6, Eigen::Vector3d::UnitZ()), all = Eigen::Affine3d::Identity();
     Pose3D p; p.position = Eigen::Vector3d(100, 50, 0); p.orientation = Eigen::Vector3d(0, 0, 0.2); p.covariance.setIdentity();
